@@ -38,7 +38,10 @@ CHECKS = {
              quick=dict(checks=0, shards=0), thorough=dict(checks=1600, shards=16, timeout=14000)),
     ]),
     "C05": dict(tests=[rapid("e2e", "TestC05", 800, 48000, qs=16, ts=16, timeout=1200, ttimeout=14000)]),
-    "C06": dict(tests=[rapid("pure", "TestC06", 40000, 4000000, qs=8)]),
+    "C06": dict(tests=[
+        rapid("pure", "TestC06", 40000, 4000000, qs=8),
+        rapid("pure", "TestC06Alias", 4000, 200000, qs=8, replay="TestC06AliasReplay"),
+    ]),
     "C07": dict(tests=[rapid("e2e", "TestC07", 96, 8000, qs=16, ts=16, timeout=1200, ttimeout=14000)]),
     "C08": dict(tests=[rapid("storeprops", "TestC08", 16000, 1600000, qs=8)]),
     "C09": dict(tests=[rapid("storeprops", "TestC09", 24000, 1600000, qs=8)]),
